@@ -136,7 +136,15 @@ def check(chk):
     chk.judge(good, 'C30.key', rk, 'BoundStatement.routing_key: one index -> raw value; else join of packed parts in routing-index order', 'bound routing key rule changed')
     good = 'if len(key) == 1' in s2 and 'self._routing_key = key[0]' in s2 and "b''.join(self._key_parts_packed(key))" in s2
     chk.judge(good, 'C30.key', srk, 'Statement._set_routing_key: one component -> raw; else join of packed parts', 'statement routing key rule changed')
-    chk.judge('if not self.prepared_statement.routing_key_indexes' in s1 and 'return None' in s1, 'C30.key', rk, 'no routing indexes -> no routing key', 'routing key invented without indexes')
+    from .. import sem as _sem
+    grk, flrk = _sem.flow_of(rk)
+    aliases = ['self.prepared_statement.routing_key_indexes'] + [src(st.targets[0]) for st in body_walk(rk) if isinstance(st, ast.Assign) and len(st.targets) == 1 and
+                                                                  isinstance(st.targets[0], ast.Name) and src(st.value) == 'self.prepared_statement.routing_key_indexes']
+    nones = [n for n in grk.stmt_nodes() if n.kind == 'return' and (n.ast.value is None or (isinstance(n.ast.value, ast.Constant) and n.ast.value.value is None))]
+    writes = [n for n in grk.stmt_nodes() if n.kind == 'stmt' and isinstance(n.ast, ast.Assign) and src(n.ast.targets[0]) == 'self._routing_key']
+    ok_none = bool(nones) and all(any(fa.knows(a) is False for a in aliases) for n in nones for fa, _c in flrk.at(n))
+    ok_w = bool(writes) and all(any(fa.knows(a) is True for a in aliases) for n in writes for fa, _c in flrk.at(n))
+    chk.judge(ok_none and ok_w, 'C30.key', rk, 'no routing indexes -> no routing key; a key is computed only with indexes', 'routing key invented without indexes')
     # from_message
     fm = q.func('PreparedStatement.from_message')
     gf = CFG(fm)
